@@ -17,7 +17,7 @@ from vf import ROOT, core
 _N = [0]
 
 
-def call(module, func, *args, timeout=600):
+def call(module, func, *args, timeout=600, env=None):
     work = os.path.join(ROOT, ".work")
     os.makedirs(work, exist_ok=True)
     _N[0] += 1
@@ -28,7 +28,8 @@ def call(module, func, *args, timeout=600):
             pickle.dump(args, f)
         try:
             p = subprocess.run([sys.executable, "-B", "-m", "vf.alone", module, func, fin, fout], cwd=ROOT,
-                               capture_output=True, text=True, timeout=timeout)
+                               capture_output=True, text=True, timeout=timeout,
+                               env=(dict(os.environ, **env) if env else None))
         except subprocess.TimeoutExpired:
             raise core.Inconclusive("fresh-interpreter run of {}.{} hit the {} s watchdog".format(module, func, timeout))
         if p.returncode != 0 or not os.path.exists(fout):
